@@ -20,14 +20,46 @@ PROP = "C05"
 PROFILE = {"add_formula_column": 10, "modify_formula": 6, "summary": 4, "update_summary": 1.5, "add_ref_column": 4,
            "reverse_column": 1, "update_record": 18, "bulk_update": 8, "remove_record": 8, "bulk_remove": 4,
            "replace_data": 2, "rename_column": 4, "modify_type": 4, "to_formula": 2, "to_data": 1,
-           "undo_earlier": 3, "malformed": 2, "trigger_column": 0, "trigger_config": 0, "unhashable_key": 4}
+           "undo_earlier": 3, "malformed": 2, "trigger_column": 0, "trigger_config": 0, "unhashable_key": 4,
+           "lookup_chain": 14}
 CFG = {"oracles": (), "n_bundles": 14, "profile": PROFILE, "hook": "gx.props.c05.install", "tie": False}
+
+
+CFG_CHAIN = {"oracles": (), "n_bundles": 3, "profile": dict(PROFILE, lookup_chain=60), "hook": "gx.props.c05.install",
+             "tie": False, "chain": True}
+
+
+def setup_chain(h):
+  """Set-up bundles: rows, a cross-table chain of lookups whose second key column is a formula fed by the first
+  lookup (Gen.g_lookup_chain), then a run of single-cell edits of the chain's key cells, each followed by the
+  fresh-engine comparison."""
+  from gx.gen_hist import World
+  rng, gen = h.rng, h.gen
+  w = World(h.doc)
+  for t in w.user_tables():
+    if len(t["rows"]) < 3:
+      k = rng.randint(3, 6)
+      yield [["BulkAddRecord", t["tableId"], [None] * k,
+              {c["colId"]: [gen.value_for(w, c, allow_bad=False) for _ in range(k)] for c in w.data_cols(t)}]]
+  for _ in range(5):
+    ua = gen.g_lookup_chain(World(h.doc))
+    if isinstance(ua, tuple):
+      yield ua[0]
+      break
+  for _ in range(rng.randint(15, 30)):
+    ua = gen.g_lookup_chain(World(h.doc))
+    if ua and not isinstance(ua, tuple):
+      yield [ua]
+    if getattr(h, "_c05_dead", False):
+      return
 
 
 def install(h, cfg):
   from gx import engine_driver as ed
   from gx import recalc_harness as rh
   rh.install()
+  if cfg.get("chain"):
+    h.setup = setup_chain
   orig_raw = h._raw
 
   def raw(uas):
@@ -116,7 +148,18 @@ def run(ck):
                     "read audit covers reads of specific rows (lookup-map reads are whole-node reads and are covered by the fresh-engine comparison only)"]
   ck.lean(["GristProps.C05"])
   merged = _hist.run_histories(ck, CFG, n_quick=16, n_thorough=1200)
+  # the lookup-chain family: short histories that are nearly all chain edits
+  m2 = _hist.run_histories(ck, CFG_CHAIN, n_quick=64, n_thorough=2500)
+  for key in ("findings", "tie", "samples", "infra"):
+    merged[key] += m2[key]
+  merged["nontrivial"].update(m2["nontrivial"])
+  merged["histories"] += m2["histories"]
+  for key in ("stats", "kinds", "errors", "step_kinds"):
+    for k, v in m2[key].items():
+      if isinstance(v, (int, float)):
+        merged[key][k] = merged[key].get(k, 0) + v
   ck.extra["fresh_engine_comparisons"] = merged["stats"].get("fresh_compares", 0)
+  ck.extra["lookup_chain_histories"] = m2["histories"]
   _hist.report(ck, merged, PROP, ())
 
 
